@@ -33,7 +33,7 @@ TABLE = [
      "keys of the substitute map are idents rendered with to_string(); each parses as a syn::PathSegment"),
     (r"validation::path_segments_to_syn_path", "panic-macro", r"panic", r".*",
      "keys of the substitute map come from path_segments(src) of a path with at least one segment (EmptySubstitutePath guard, C16.4)"),
-    (r"TypeGenerator::create_type_ir", "unwrap", r"Option::expect", r"Option::map\(Path::ident\(P1\.path\).*",
+    (r"TypeGenerator::create_type_ir", "unwrap", r"Option::expect", r"(Option::map\()?Path::ident\(P1\.path\).*",
      "W3: a Composite/Variant definition has a non-empty path (the early return excluded every other definition)"),
     (r"TypeGenerator::resolve_type_path_recurse", "index", r"Vec", r".*type_params\['0'\]",
      "W5: a type whose ident is `Cow` is scale-info's description of std Cow, which has exactly one type parameter"),
